@@ -100,11 +100,17 @@ pub fn write_snapshot(
     fs::create_dir_all(dir)?;
     let path = dir.join(format!("{session_id}.json"));
     let file = File::create(&path)?;
+    #[cfg(rip_verif)]
+    rip_kernel::verif::point("snap.created");
     let mut writer = BufWriter::new(file);
     let payload = serde_json::to_string_pretty(events)
         .map_err(|err| io::Error::new(io::ErrorKind::InvalidData, err))?;
     writer.write_all(payload.as_bytes())?;
+    #[cfg(rip_verif)]
+    rip_kernel::verif::point("snap.written");
     writer.flush()?;
+    #[cfg(rip_verif)]
+    rip_kernel::verif::point("snap.flushed");
     Ok(path)
 }
 
